@@ -10,7 +10,8 @@ parser, the C02 ITP reader, own fixed-column PDB / GRO readers) and compared:
  (1) [ molecules ] expands to the sequence of moltype names of the molecules,
      in order, written as run lengths of successive identical names;
  (2) every moltype has its <name>.itp, is #included, nothing else is written /
-     included (part `include-once`: included exactly once);
+     included, no file is opened for writing twice by the topology writer
+     (part `include-once`: each moltype file is included exactly once);
  (3) the k-th coordinate record of molecule m (PDB: between TER records, GRO:
      consecutive records) has the atom name / residue name / residue number of
      the k-th [ atoms ] line of the ITP the .top names for m, modulo the width
@@ -78,6 +79,10 @@ ASSUMPTIONS = [
     'share the name of its template: the statement only forbids sharing when the written topologies differ',
     'molecule names contain no path separator or blank (they are used as file names)',
     'part cli-order: SortMoleculeAtoms with its default arguments, chain present on all or none of the atoms of a molecule',
+    '"written exactly once" is observed by counting the write-mode calls of vermouth.gmx.topology.deferred_open (wrapped during '
+    'write_gmx_topology); if that module attribute disappears the count is silently skipped',
+    'a violation that is an open known finding hides the rest of its case, therefore the three assertions that fail on the unchanged '
+    'tree live in parts of their own (gro, include-once, cli-order) and are raised after every other assertion passed',
 ]
 
 PDB_W = {'atomname': 4, 'resname': 3, 'resid': 4}
